@@ -3,9 +3,18 @@ C02 bounded tier: for every PretextView-model edit script the remapping complete
 more than 3 x (1 + floor(bp/texel)) from the piece ends) is one contiguous collinear run of one output scaffold,
 oriented input x piece, with the input's internal gaps; pieces of one Pretext scaffold sharing a destination keep
 Pretext order; a cut deeper than the margin inside a contig splits it exactly at the designated base.
+
+The margin is a step function of the texel size (floor!), and "deeper than the margin" is a strict bound, so besides the
+shared streams (texel sizes 1, 2.5, 10, 33.3, cuts wherever the grid puts them) a family `margin-edge` is built backwards
+from the statement: for texel sizes with every kind of fractional part (.01, .49, .5 over an odd and an even integer part,
+.6, .75, .9, .99, none; one of several hundred bp) a two-contig scaffold is sized so that one texel boundary falls exactly
+margin-1 ... margin+7 bases inside a contig (from its start or from its end, abutting / across a gap, short or long
+neighbour, other side of the cut just deeper than the margin or far deeper), and the two pieces go through every
+permutation x orientation x grouping.  From margin+1 on, the contig must be split exactly there.
 """
 
 import itertools
+import math
 import random
 
 from . import pipeline_gen as pg
@@ -64,7 +73,9 @@ def layout_problems(case, out):
                     if lo_side_end not in {f[3] for f in subs} or hi_side_start not in {f[2] for f in subs}:
                         problems.append(
                             f"cut after {s['name']}:{cut} must split {row[1]}:{row[2]}-{row[3]}({row[4]:+d}) between "
-                            f"{lo_side_end} and {hi_side_start}; output has {sorted((f[2], f[3]) for f in subs)}"
+                            f"{lo_side_end} and {hi_side_start} (the cut lies {cut - r_start + 1} and {r_end - cut} bases inside "
+                            f"the contig, margin 3 x (1 + floor({mp['bpt']})) = {margin}); output has "
+                            f"{sorted((f[2], f[3]) for f in subs)}"
                         )
     return problems, n_cores, n_deep
 
@@ -86,13 +97,89 @@ def replay(inp):
     return col.failures[0]["message"] if col.failures else None
 
 
+# texel sizes of the margin-edge family: (quick), (thorough).  floor() differs from round-to-nearest for fractions
+# above .5 and for .5 over an odd integer part, from ceil() for every fraction; integers and the shared sizes are in the
+# thorough list so that the strict bound itself (margin vs margin+1) is probed at every size
+EDGE_BPTS = {
+    "quick": (1.6, 3.5, 2.99),
+    "thorough": (1.5, 1.6, 1.99, 2.6, 3.5, 3.99, 1.01, 2.49, 4.5, 10.75, 33.9, 1.0, 2.5, 3.0, 10.0, 33.3, 251.6),
+}
+
+
+def margin_edge_scaffolds(bpt, d, gap, side, variant, strands, naming):
+    """
+    (scaffold, t): a scaffold of two contigs W and X with texel boundary t falling exactly d bases inside X, counted from
+    X's start (side 'start': W gap X) or back from X's end (side 'end': X gap W).  variant 0: W as short as the grid
+    allows, the rest of X just deeper than the margin; 1: short W, long rest; 2: W long enough to have an interior, long rest.
+    None if d < 1.
+    """
+    if d < 1:
+        return None
+    f = pg.bptF(bpt)
+    margin = pg.margin_of(bpt)
+    two = math.ceil(2 * f) + 1  # bases that surely hold two whole texels
+    glen = gap[0] if gap else 0
+    rest = max(margin + 1, two) + (0 if variant == 0 else math.ceil(4 * f) + 3)  # X on the other side of the cut
+    a_min = 1 if variant < 2 else margin + 2 + math.ceil(f)
+    t = 2
+    if side == "start":
+        while math.floor(t * f) - glen - d < a_min:
+            t += 1
+        a_len = math.floor(t * f) - glen - d
+        lengths, order = (a_len, d + rest), strands
+    else:
+        while math.floor(t * f) < rest:
+            t += 1
+        b_len = math.floor(t * f) + d
+        a_len = max(a_min, two - d - glen, 1)
+        lengths, order = (b_len, a_len), strands[::-1]
+    sc = pg.make_scaffold("scaffold_1", lengths, order, [gap], naming, tag="1")
+    return sc, t
+
+
+def margin_edge_cases(tier):
+    """the margin-edge family (see the module text); yields cases"""
+    quick = tier == "quick"
+    offsets = (1, 2, 3) if quick else tuple(range(-1, 8))
+    gaps = (None, (1, "contig")) if quick else (None, (1, "contig"), (5, "scaffold"))
+    variants = (1,) if quick else (0, 1, 2)
+    i = 0
+    for bpt in EDGE_BPTS[tier]:
+        margin = pg.margin_of(bpt)
+        for off in offsets:
+            for gap, side, variant in itertools.product(gaps, ("start", "end"), variants):
+                for x_strand in (1, -1):
+                    i += 1
+                    if quick and (i + off) % 2:
+                        continue
+                    strands = ((1, -1)[i // 2 % 2], x_strand)
+                    got = margin_edge_scaffolds(bpt, margin + off, gap, side, variant, strands, ("own", "fasta", "offset")[i % 3] if not quick else "own")
+                    if got is None:
+                        continue
+                    sc, t = got
+                    seen_n = set()
+                    for rounding in ("floor", "ceil"):
+                        n = pg.texels(pg.rows_len(sc["rows"]), bpt, rounding)
+                        if n in seen_n or n - t < 2 or (quick and seen_n):
+                            continue
+                        seen_n.add(n)
+                        pcs = pg.pieces_of(sc, bpt, rounding, (t,))
+                        for ai, arr in enumerate(pg.ALL_ARRANGEMENTS[2]):
+                            painted = [(i + ai + k) % 2 == 0 for k in range(len(arr[2]))]
+                            mp = {"bpt": bpt, "scaffolds": pg.arrange(pcs, arr, painted)}
+                            inp = [sc]
+                            yield {"input": inp, "map": mp, "prefix": "SUPER_", "via": pg.pick_via(inp, i + ai)}
+
+
 def run(tier, seed, **opts):
     rng = random.Random(seed)
     col = Collector(
         "PretextView-model edit scripts from pipeline_gen (exhaustive tiny scope; single scaffolds of <= 3 contigs over "
         "every length tuple; sub-texel contig runs; 2-3 scaffold inputs): cuts on the texel grid with pieces >= 2 "
         "texels, every/sampled permutation x orientation x grouping, floor or ceil texel count, sub-texel scaffolds "
-        "present or absent, painted or unpainted, forward and reverse contigs; oracle = statement, base by base; "
+        "present or absent, painted or unpainted, forward and reverse contigs; family margin-edge: two-contig scaffolds "
+        "sized so that a texel boundary falls exactly margin-1 .. margin+7 bases inside a contig, texel sizes with every "
+        "kind of fractional part, every arrangement of the two pieces; oracle = statement, base by base; "
         "non-trivial = distinct case with at least one piece interior to locate or one deep cut"
     )
     quick = tier == "quick"
@@ -116,6 +203,10 @@ def run(tier, seed, **opts):
             one(case, "tiny")
             if col.full:
                 break
+    for case in margin_edge_cases(tier):
+        if col.full:
+            break
+        one(case, "margin-edge")
     for fam, case, _ in pg.model_cases(tier, rng):
         if col.full:
             break
@@ -124,6 +215,7 @@ def run(tier, seed, **opts):
         bounds=(
             "input: 1-3 scaffolds x 1-6 contigs, contig lengths from {1,2,7,12,40,150,400,1000}, gaps none/1/10/20/25/200, both "
             "strands, names fasta/own/offset, optional terminal gaps; texel sizes {1,2.5,10,33.3}; <= 3 cuts per scaffold; "
+            f"margin-edge: texel sizes {list(EDGE_BPTS[tier])}, cut depth margin{'+1..+3' if quick else '-1..+7'} from either contig end; "
             f"tiny scopes ({tiny_n} cases: {pg.describe_scopes(scopes)}; both strands, every cut set and arrangement) "
             "enumerated fully, the rest seeded; "
             f"piece interiors located: {stats['cores']}, deep cuts checked: {stats['deep_cuts']}; per family: "
